@@ -122,6 +122,8 @@ func (x *Explorer) step(in *inst, e Event, hist []Event, check bool) {
 		in.n.CloseDB()
 	case e.Kind == "tick" && e.FullQ:
 		out = in.n.StepFullQueue(input)
+	case e.Kind == "tick" && e.FullS:
+		out = in.n.StepFullSend(input)
 	default:
 		out = in.n.Step(input)
 	}
